@@ -535,6 +535,7 @@ pub fn long_runs(args: &[String]) -> i32 {
                     .with_int_input("x", 7)
                     .with_float_input("y", OrderedFloat(1.5))
                     .with_bool_input("b", true)
+                    .with_int_input("X", -9)
                     .build();
                 // exec gets its own maximum: the builder only offers one global size
                 let mut st = st;
